@@ -14,7 +14,7 @@ Abstract cell (JSON-able), None = missing:
   multicategorical     [token, ...]            (stripped tokens, repeats allowed)
   sequence_numerical   [float | 'nan', ...]
   timestamp            int (epoch seconds)  |  {'bad': text}
-  embedding            [float, ...]
+  embedding            [float, ...]            (fixed width per column; at least one non-missing cell)
   text_embedded / image_embedded   str
 Canonical encoded value: int -> int, float -> [ieee754 bits], NaN -> None (same coding as Drivers/C01.lean).
 """
@@ -267,9 +267,14 @@ def gen_col(rng, name, st, n, target_kind=None):
                     'unit': rng.choice(['s', 'ms', 'us', 'ns']), 'na': rng.choice(['None', 'nan'])}
     elif st == 'embedding':
         w = rng.randint(1, 5)
-        cells = [[rng.choice(NUM_POOL) if rng.random() < 0.5 else float(rng.randint(0, 9)) for _ in range(w)]
+        pm = rng.choice([0.0, 0.0, 0.25, 0.5])
+        cells = [None if rng.random() < pm else
+                 [rng.choice(NUM_POOL) if rng.random() < 0.5 else float(rng.randint(0, 9)) for _ in range(w)]
                  for _ in range(n)]
-        col['r'] = {'as': rng.choice(['list', 'ndarray'])}
+        if all(c is None for c in cells):
+            # an embedding column without a single vector has no width: outside the domain (still raises)
+            cells[rng.randrange(n)] = [float(rng.randint(0, 9)) for _ in range(w)]
+        col['r'] = {'as': rng.choice(['list', 'ndarray']), 'w': w, 'na': rng.choice(['None', 'nan'])}
     elif st in ('text_embedded', 'image_embedded'):
         pm = rng.choice([0.0, 0.0, 0.2])
         cells = [None if rng.random() < pm else rng.choice(TEXTS) for _ in range(n)]
@@ -405,8 +410,8 @@ def render_cells(col, cells=None):
         return out, r['dtype']
     if st == 'embedding':
         if r['as'] == 'ndarray':
-            return [None if c is None else np.array(c, dtype='float64') for c in cells], 'object'
-        return [None if c is None else list(c) for c in cells], 'object'
+            return [_na(r) if c is None else np.array(c, dtype='float64') for c in cells], 'object'
+        return [_na(r) if c is None else list(c) for c in cells], 'object'
     if st in ('text_embedded', 'image_embedded'):
         return [_na(r) if c is None else c for c in cells], r['dtype']
     raise ValueError(st)
@@ -689,7 +694,7 @@ def expected_cell(col, c, cats):
     if st == 'timestamp':
         return components_of(c) if isinstance(c, int) else [-1] * 7
     if st == 'embedding':
-        return [cval(fval(x)) for x in c]
+        return [None] * col['r']['w'] if c is None else [cval(fval(x)) for x in c]
     if st in ('text_embedded', 'image_embedded'):
         return [cval(x) for x in stub_vec(col['r']['w'], col['r']['salt'], text_input(col, c))]
     raise ValueError(st)
